@@ -497,19 +497,20 @@ theorem rowLoop_frame (w0 : List W) : ∀ (rs : List PRow) (n : Nat) (st : St),
       simp only [List.append_assoc] at this ⊢
       exact this
 
+/-- the spelling check for one sheet name: the warning, if any -/
+def misspellW (lower : Str → Str) (key : String) (names : List Str) : List W :=
+  match findSheetMisspellings lower supported key.toList names with
+  | some c => [W.misspell key.toList c]
+  | none => []
+
 /-- the warnings emitted before the row loop, from an empty list -/
 def preRows (lower : Str → Str) (wb : WB) (v : View) (chW : List W) : List W :=
   (if wb.settingsRows > 0 then
       (if wb.settingsHeader.contains "id_string".toList && wb.settingsHeader.contains "form_id".toList
        then [W.dupId] else [])
-    else match findSheetMisspellings lower supported "settings".toList wb.sheetNames with
-      | some c => [W.misspell "settings".toList c]
-      | none => []) ++
+    else misspellW lower "settings" wb.sheetNames) ++
   (if wb.choices.isEmpty then [] else choiceHeaderWarnings v.chHeaders ++ chW) ++
-  (if wb.hasEntities then []
-    else match findSheetMisspellings lower supported "entities".toList wb.sheetNames with
-      | some c => [W.misspell "entities".toList c]
-      | none => []) ++
+  (if wb.hasEntities then [] else misspellW lower "entities" wb.sheetNames) ++
   missingCheck (findTranslations surveyTrTable v.svHeaders) (findTranslations choicesTrTable v.chHeaders)
 
 /-- `convertOn` in writer form -/
@@ -523,7 +524,7 @@ theorem convertOn_eq (lower : Str → Str) (wb : WB) (v : View) (w0 : List W) :
         | .ok st => .ok ({ kept := st.kept, orOther := st.orOther },
             st.warnings ++ orOtherCheck st.orOther (findTranslations surveyTrTable v.svHeaders)
               (findTranslations choicesTrTable v.chHeaders)) := by
-  unfold convertOn preRows
+  unfold convertOn preRows misspellW
   cases choicesWarnings (groupChoices (numberFrom 2 v.chRows)) with
   | error e => rfl
   | ok chW =>
